@@ -559,10 +559,14 @@ def count_calls(o):
     return n + (len(o["ms"]) if o["ms"] else 0)
 
 
-def run(ctx, broken):
-    main, mal, exh = gen_specs(ctx["seed"], ctx["tier"])
+def run(ctx, broken, limit=None):
+    """limit = N: reduced run for the neighbouring properties (C02, C10): corpus + the first N structured cases"""
+    main, mal, exh = gen_specs(ctx["seed"], ctx["tier"] if limit is None else "quick")
     res = {"evaluations": 0, "distinct_nontrivial": 0, "rule": "", "samples": [], "disagreements": [], "failures": [], "extra": {}}
     streams = [("corpus", corpus()), ("structured", main), ("malformed", mal)] + ([("exhaustive", exh)] if exh else [])
+    if limit is not None:
+        streams = [("corpus", corpus()), ("structured", main[:limit])]
+        exh = []
     seen = set()
     dist = {}
     samples = []
@@ -666,3 +670,22 @@ def replay(path):
         fl = oracle(parse_case(case), parse_out(io))
         print("oracle:        ", "clean" if not fl else "; ".join("%s: %s" % (a, b) for a, b, _ in fl[:5]))
     return 0
+
+
+def subset_failures(ctx, classes, limit, need_scramble=False):
+    """failures of the given classes found by a reduced run of the Atom / Pattern level stream (used by C02 and C10,
+    whose statements also cover Atom::indices / Pattern::indices and the reuse of one Matcher); correspondence
+    differences of that stream are NOT propagated (they belong to C15)"""
+    r = run(ctx, [], limit=limit)
+    out = []
+    for f in r["failures"]:
+        if f.get("class") not in classes:
+            continue
+        if need_scramble:
+            try:
+                if parse_case(f["case"])["scramble"] == 0:
+                    continue
+            except Exception:  # noqa
+                pass
+        out.append(f)
+    return out, r["evaluations"]
